@@ -320,6 +320,9 @@ func (s *subVector) Pop() Vector {
 }
 
 func (s *subVector) SubVector(i, j int) Vector {
+	if i < 0 || i > j || j > s.Len() {
+		return nil
+	}
 	return s.v.SubVector(s.begin+i, s.begin+j)
 }
 
